@@ -194,7 +194,12 @@ class EnvSpec:
                     and abi_impl.endswith("t") is not free_threaded
                 ):
                     return None
-            if major and minor:
+            if major and minor and impl == "py":
+                # A generic `pyXY` wheel runs on every later X.* interpreter as well.
+                wheel_range = parse_version_specifier(
+                    f">={major}.{minor}"
+                ) & parse_version_specifier(f"=={major}.*")
+            elif major and minor:
                 wheel_range = parse_version_specifier(f"=={major}.{minor}.*")
             else:
                 wheel_range = parse_version_specifier(f"=={major}.*")
